@@ -66,4 +66,37 @@ fire("c19-att2idx-from-2", ["C19"], HLP, "for i in range(1, ln))", "for i in ran
 silent("c19-att2name-partition", ["C19"], [(HLP, '    return att.split("_")[0]', '    return att.partition("_")[0]')], "equivalent")
 silent("c19-datadesc-split-loop", ["C19"], [(HLP, _DD_NEW, '    parts = datafield.split("_")\n    while "_".join(parts) not in RTCM_DATA_FIELDS and len(parts) > 1:\n        parts.pop()\n    (_, _, _, desc) = RTCM_DATA_FIELDS["_".join(parts)]')], "equivalent rewrite")
 
+# ----------------------------------------------------------------------------- C18
+fire("c18-guard-reserved", ["C18"], HLP, '    if not msg.ismsm or not hasattr(msg, "NSat"):', '    if not msg.ismsm:', "original defect F-C18 re-introduced")
+fire("c18-sat-list-shortened", ["C18"], HLP, '["PRN", "DF397", "DF398", "DF399", "DF419", "ExtSatInfo"]', '["PRN", "DF397", "DF398", "DF399", "ExtSatInfo"]', "GLONASS channel number silently dropped from MSM5/7 arrays")
+fire("c18-cell-list-shortened", ["C18"], HLP, '            "DF408",\n            "DF420",', '            "DF408",', "half-cycle indicator dropped")
+fire("c18-epoch-field", ["C18"], CORE, '"111": ("QZSS", "DF428"),', '"111": ("QZSS", "DF427"),', "QZSS epoch looked up under the BeiDou field")
+fire("c18-epoch-station", ["C18"], CORE, '"109": ("GALILEO", "DF248"),', '"109": ("GALILEO", "DF003"),', "epoch = station id")
+fire("c18-suffix-3digits", ["C18"], HLP, 'cells[attr] = getattr(msg, f"{attr}_{i:02d}")', 'cells[attr] = getattr(msg, f"{attr}_{i:03d}")')
+fire("c18-layer-count", ["C18"], HLP, "for lyr in range(msg.IDF035 + 1):", "for lyr in range(msg.IDF035):", "last ionospheric layer dropped")
+fire("c18-coeff-order", ["C18"], CORE, '    0: ("IDF039", "Cosine Coefficients"),\n    1: ("IDF040", "Sine Coefficients"),', '    0: ("IDF040", "Cosine Coefficients"),\n    1: ("IDF039", "Sine Coefficients"),')
+fire("c18-broad-except", ["C18"], HLP, "                except AttributeError:\n                    eof = True", "                except Exception:\n                    eof = True")
+fire("c18-coeff-index-base", ["C18"], HLP, 'getattr(msg, f"{field}_{lyr+1:02d}_{i+1:02d}")', 'getattr(msg, f"{field}_{lyr+1:02d}_{i:02d}")')
+fire("c18-sat-range-from-0", ["C18"], HLP, "for i in range(1, msg.NSat + 1):", "for i in range(0, msg.NSat):")
+silent("c18-guard-identity-check", ["C18"], [(HLP, '    if not msg.ismsm or not hasattr(msg, "NSat"):', '    if not (msg.ismsm and hasattr(msg, "NSat") and hasattr(msg, "NCell")):')], "equivalent stronger guard")
+silent("c18-extra-probe-name", ["C18"], [(HLP, '["PRN", "DF397", "DF398", "DF399", "DF419", "ExtSatInfo"]', '["PRN", "DF397", "DF398", "DF399", "DF419", "ExtSatInfo", "DF999"]')], "extra probed name is harmless (hasattr-guarded)")
+
+# ----------------------------------------------------------------------------- C09
+fire("c09-default-shape", ["C09"], MSG, "sgc = sigmap.get(idx, (NA, NA))", "sgc = sigmap.get(idx, NA)", "original defect F-C09 re-introduced")
+fire("c09-sat-range-64", ["C09"], MSG, "for idx in range(65):", "for idx in range(64):", "satellite ID 64 never reported")
+fire("c09-sat-pos-63", ["C09"], MSG, '>> (64 - idx) & 1', '>> (63 - idx) & 1', "PRNs shifted by one")
+fire("c09-sig-range-32", ["C09"], MSG, "for idx in range(33):", "for idx in range(32):")
+fire("c09-cell-loops-swapped", ["C09"], MSG, "        for sat in range(nsat):\n            for sig in range(nsig):", "        for sig in range(nsig):\n            for sat in range(nsat):", "cells scanned signal-major")
+fire("c09-sat-plus1-dropped", ["C09"], MSG, "(self._satmap[sat + 1], sigs[sig])", "(self._satmap[sat], sigs[sig])")
+fire("c09-cell-pos", ["C09"], MSG, ">> (ncells - idx) & 1", ">> (ncells - idx - 1) & 1")
+fire("c09-rinex-code-altered", ["C09"], TAB, '    10: ("L2", "2W"),', '    10: ("L2", "2V"),')
+fire("c09-navic-prn-range", ["C09"], TAB, 'IRNSS_PRN_MAP = {i: f"{i:03d}" for i in range(1, 15)}', 'IRNSS_PRN_MAP = {i: f"{i:03d}" for i in range(1, 14)}', "NavIC PRN 14 reported N/A")
+fire("c09-sbas-offset", ["C09"], TAB, 'f"{i+119:03d}"', 'f"{i+120:03d}"')
+fire("c09-nsig-from-df394", ["C09"], MSG, "            elif anam == \"DF395\":  # num of signals in MSM message\n                setattr(self, NSIG, nbits)", "            elif anam == \"DF395\":  # num of signals in MSM message\n                setattr(self, NSIG, nbits + 0 * offset if nbits else 1)")
+fire("c09-cellsig-component", ["C09"], MSG, "val = self._cellmap[index[0]][1]", "val = self._cellmap[index[0]][0]", "cell signal label shows the PRN")
+fire("c09-prefix-slice", ["C09"], MSG, "PRNSIGMAP[str(self.identity)[0:3]]", "PRNSIGMAP[str(self.identity)[1:4]]")
+silent("c09-band-label-changed", ["C09"], [(TAB, '    2: ("G1", "1C"),', '    2: ("G1a", "1C"),')], "band label (position 0) is not pinned")
+silent("c09-scan-locals-renamed", ["C09"], [(MSG, "        nsat = 0\n        for idx in range(65):\n            if getattr(self, \"DF394\") >> (64 - idx) & 1:\n                nsat += 1\n                self._satmap[nsat] = prnmap.get(idx, NA)",
+   "        count = 0\n        for satid in range(1, 65):\n            if (self.DF394 >> (64 - satid)) & 1 != 0:\n                count = count + 1\n                self._satmap[count] = prnmap.get(satid, NA)\n        nsat = count")], "equivalent rewrite of the satellite scan")
+
 VARIANTS = V
